@@ -29,8 +29,7 @@ theorem compute_flip_dE_loop1_loop1_eq_model (X : DOps α) (R : RandExt ρ α) (
           let sn ← state.rd n
           pure (e + Jv * ofInt sn)) := by
   unfold compute_flip_dE_loop1_loop1
-  simp only [hb, ok_bind]
-  rsteps
+  rcrush 4
 
 /-- body of `for(i..)` in `compute_flip_dE`: the model's `subgraphEnergy` followed by
 `flip_spin_dE[i] = -2. * state[i] * subgraph_energy` -/
@@ -41,14 +40,17 @@ theorem compute_flip_dE_loop1_eq_model (X : DOps α) (R : RandExt ρ α) (q : Qu
           let si ← state.rd i
           flip.wr i (ofInt (-2) * ofInt si * e)) := by
   unfold compute_flip_dE_loop1 subgraphEnergy
-  simp only [bind_assoc]
-  rstep; rstep; rskip
-  refine Refines.bind ?_ fun e _ => Refines.refl _
-  rw [Int.sub_zero, forFromM_zero]
-  apply forFromM_refines; intro j e _ _
-  refine Refines.trans (compute_flip_dE_loop1_loop1_eq_model X R state q.nb q.J index i j e _ (by assumption)) ?_
-  simp only [Bool.false_and, Bool.false_eq_true, if_false]
-  exact Refines.refl _
+  simp only [bind_assoc, Bool.false_and, Bool.false_eq_true, if_false]
+  intro v hv
+  obtain ⟨e0, h1, hv⟩ := bind_eq_ok hv
+  obtain ⟨cnt, h2, hv⟩ := bind_eq_ok hv
+  obtain ⟨base, h3, hv⟩ := bind_eq_ok hv
+  obtain ⟨e, h4, hv⟩ := bind_eq_ok hv
+  have hl := forFromM_refines (compute_flip_dE_loop1_loop1 X R state q.nb q.J index i) _ cnt.toNat 0 e0
+    (fun j e _ _ => compute_flip_dE_loop1_loop1_eq_model X R state q.nb q.J index i j e base h3) e h4
+  -- the loads of the C text (`h[i]`, `num_neighbors[i]`, a cached `index[i]`) in any order
+  simp only [h1, h2, h3, hl, ok_bind, pure_bind', bind_assoc, Int.sub_zero]
+  exact hv
 
 /-- `compute_flip_dE` refines `KMem.computeFlipDE` -/
 theorem compute_flip_dE_eq_model (X : DOps α) (R : RandExt ρ α) (q : QusoB α) (index : Buf Int) (N : Nat)
@@ -74,8 +76,7 @@ theorem recompute_flip_dE_loop1_eq_model (X : DOps α) (R : RandExt ρ α) (q : 
           let Jv ← q.J.rd ix
           flip.wr n (fn + ofInt 4 * ofInt ss * ofInt sn * Jv)) := by
   unfold recompute_flip_dE_loop1
-  simp only [hb, ok_bind]
-  rsteps
+  rcrush 6
 
 /-- `recompute_flip_dE` refines `KMem.recomputeFlipDE` -/
 theorem recompute_flip_dE_eq_model (X : DOps α) (R : RandExt ρ α) (q : QusoB α) (index : Buf Int) (spin : Nat)
@@ -83,12 +84,20 @@ theorem recompute_flip_dE_eq_model (X : DOps α) (R : RandExt ρ α) (q : QusoB 
     recompute_flip_dE X R (spin : Int) flip state q.nn q.nb q.J index ⊑ recomputeFlipDE q index spin flip state := by
   unfold recompute_flip_dE recomputeFlipDE
   simp only [bind_assoc, bind_pure]
-  rstep; rstep; rstep; rskip
-  rw [Int.sub_zero, forFromM_zero]
-  apply forFromM_refines; intro j flip _ _
-  exact recompute_flip_dE_loop1_eq_model X R q index state spin j flip _ (by assumption)
+  intro v hv
+  obtain ⟨f, h1, hv⟩ := bind_eq_ok hv
+  obtain ⟨flip', h2, hv⟩ := bind_eq_ok hv
+  obtain ⟨cnt, h3, hv⟩ := bind_eq_ok hv
+  obtain ⟨base, h4, hv⟩ := bind_eq_ok hv
+  have hl := forFromM_refines (recompute_flip_dE_loop1 X R (spin : Int) state q.nb q.J index) _ cnt.toNat 0 flip'
+    (fun j flip _ _ => recompute_flip_dE_loop1_eq_model X R q index state spin j flip base h4) v hv
+  simp only [h1, h2, h3, h4, hl, ok_bind, pure_bind', bind_assoc, Int.sub_zero]
 
 /-! ## single_anneal_quso -/
+
+/-- the C truth values 1 and 0 of an `int` flag, tested with `if(flag)` -/
+theorem flag_one : decide ((1 : Int) ≠ 0) = true := by decide
+theorem flag_zero : decide ((0 : Int) ≠ 0) = false := by decide
 
 /-- the generated accumulator `(state, rng, flip_spin_dE)` from the model's `(state, flip_spin_dE, rng)` -/
 def qsw (t : Buf Int × Buf α × ρ) : Buf Int × ρ × Buf α := (t.1, t.2.2, t.2.1)
@@ -108,41 +117,33 @@ theorem single_anneal_quso_loop1_loop1_eq_model (X : DOps α) (R : RandExt ρ α
   rw [hcast] at hrec
   unfold single_anneal_quso_loop1_loop1 qusoStep visit flipAt
   generalize decide (in_order ≠ 0) = io
+  -- the acceptance test in any of its C spellings (one `||`/`&&` expression; an `int` flag set in two steps and
+  -- `if(!accept) continue;`; a static helper with early returns): split on the three comparisons, in C's
+  -- short-circuit order, and normalise the 0/1 flags
   cases io
   · simp only [qsw, srcOf, Bool.false_eq_true, if_false, if_true, pure_bind', bind_assoc, hcast]
     rstep
     rename_i dE _
-    cases h1 : X.dle dE (ofInt 0)
-    · cases h2 : X.dlt (ofInt 0) T
-      · simp only [Bool.false_eq_true, if_false, if_true, pure_bind', bind_assoc]
-        exact Refines.refl _
-      · cases h3 : X.dlt (R.rand_double (R.rand_int r (N : Int)).2).1 (X.dexp (X.ddiv (X.dneg dE) T))
-        · simp only [h3, Bool.false_eq_true, if_false, if_true, pure_bind', bind_assoc]
-          exact Refines.refl _
-        · simp only [h3, Bool.false_eq_true, if_false, if_true, pure_bind', bind_assoc]
-          refine Refines.bind hrec fun _ _ => ?_
-          try simp only [hcast]
-          rsteps
-    · simp only [Bool.false_eq_true, if_false, if_true, pure_bind', bind_assoc]
-      refine Refines.bind hrec fun _ _ => ?_
-      try simp only [hcast]
-      rsteps
+    cases h1 : X.dle dE (ofInt 0) <;> cases h2 : X.dlt (ofInt 0) T <;>
+      cases h3 : X.dlt (R.rand_double (R.rand_int r (N : Int)).2).1 (X.dexp (X.ddiv (X.dneg dE) T)) <;>
+      simp only [h1, h2, h3, Bool.false_eq_true, if_false, if_true, pure_bind', bind_assoc, flag_one, flag_zero,
+        Bool.not_true, Bool.not_false] <;>
+      first
+        | exact Refines.refl _
+        | (refine Refines.bind hrec fun _ _ => ?_
+           try simp only [hcast]
+           rsteps)
   · simp only [qsw, srcOf, Bool.false_eq_true, if_false, if_true, pure_bind', bind_assoc]
     rstep
     rename_i dE _
-    cases h1 : X.dle dE (ofInt 0)
-    · cases h2 : X.dlt (ofInt 0) T
-      · simp only [Bool.false_eq_true, if_false, if_true, pure_bind', bind_assoc]
-        exact Refines.refl _
-      · cases h3 : X.dlt (R.rand_double r).1 (X.dexp (X.ddiv (X.dneg dE) T))
-        · simp only [h3, Bool.false_eq_true, if_false, if_true, pure_bind', bind_assoc]
-          exact Refines.refl _
-        · simp only [h3, Bool.false_eq_true, if_false, if_true, pure_bind', bind_assoc]
-          refine Refines.bind (recompute_flip_dE_eq_model X R q index j fl st) fun _ _ => ?_
-          rsteps
-    · simp only [Bool.false_eq_true, if_false, if_true, pure_bind', bind_assoc]
-      refine Refines.bind (recompute_flip_dE_eq_model X R q index j fl st) fun _ _ => ?_
-      rsteps
+    cases h1 : X.dle dE (ofInt 0) <;> cases h2 : X.dlt (ofInt 0) T <;>
+      cases h3 : X.dlt (R.rand_double r).1 (X.dexp (X.ddiv (X.dneg dE) T)) <;>
+      simp only [h1, h2, h3, Bool.false_eq_true, if_false, if_true, pure_bind', bind_assoc, flag_one, flag_zero,
+        Bool.not_true, Bool.not_false] <;>
+      first
+        | exact Refines.refl _
+        | (refine Refines.bind (recompute_flip_dE_eq_model X R q index j fl st) fun _ _ => ?_
+           rsteps)
 
 /-- **the schedule loop's body** (`T = Ts[t]; for(j..) visit`) refines the model's: one temperature, one sweep -/
 theorem single_anneal_quso_loop1_eq_model (X : DOps α) (R : RandExt ρ α) (q : QusoB α) (index : Buf Int)
